@@ -13,28 +13,28 @@ Proof. exact connect_resume_content. Qed.
 
 (* the server confirms that id: the session continues without a new bind and keeps
    identity, counters and held stanzas (the persistent state is untouched) *)
-Theorem C11_resumed_continues : forall cfg c p f rest,
+Theorem C11_resumed_continues : forall cfg c p f rest sn,
   f_sm f = true -> has_id p = true ->
-  step_resume cfg c p f (SResumed (p_sm_id p) :: rest)
-  = ([o c (RResume (p_sm_id p) (p_inbound p))], Ok, p).
+  step_resume cfg c p f (SResumed (p_sm_id p) :: rest) sn
+  = ([o c (RResume (p_sm_id p) (p_inbound p)) sn], Ok, p).
 Proof. exact resumed_continues. Qed.
 
 (* the server refuses: the stale state is discarded and a bind request follows, always *)
-Theorem C11_refused_binds_fresh : forall cfg c p f s1,
+Theorem C11_refused_binds_fresh : forall cfg c p f s1 sn,
   f_sm f = true -> has_id p = true ->
-  step_resume cfg c p f (SFailed :: s1)
-  = (let '(w, r, p2) := step_bind cfg c (clear_sm p) f s1 in
-     (o c (RResume (p_sm_id p) (p_inbound p)) :: w, r, p2))
-  /\ exists w', reqs (outs (step_bind cfg c (clear_sm p) f s1))
+  step_resume cfg c p f (SFailed :: s1) sn
+  = (let '(w, r, p2) := step_bind cfg c (clear_sm p) f s1 [SFailed] in
+     (o c (RResume (p_sm_id p) (p_inbound p)) sn :: w, r, p2))
+  /\ exists w', reqs (outs (step_bind cfg c (clear_sm p) f s1 [SFailed]))
                = RBind (c_resource cfg) (p_packet_id p + 1) :: w'.
 Proof. exact refused_binds. Qed.
 
 (* another id, an unexpected element, malformed XML or a closed stream: the state is
    discarded and the connection fails; the old session is never continued *)
-Theorem C11_other_reply_discards : forall cfg c p f s,
+Theorem C11_other_reply_discards : forall cfg c p f s sn,
   f_sm f = true -> has_id p = true ->
   (forall rest, s <> SResumed (p_sm_id p) :: rest) -> (forall s1, s <> SFailed :: s1) ->
-  exists w cp, step_resume cfg c p f s = (w, Err false false, clear_sm p) /\
+  exists w cp, step_resume cfg c p f s sn = (w, Err false false, clear_sm p) /\
                cp = clear_sm p /\ p_sm_id cp = [].
 Proof. exact other_reply_discards. Qed.
 
@@ -48,8 +48,8 @@ Proof.
   apply connect_resume_content in Hin as (_ & _ & Hne). contradiction.
 Qed.
 
-Theorem C11_new_id_only_from_enabled : forall cfg c p f s,
-  let q := pst (step_enable cfg c p f s) in
+Theorem C11_new_id_only_from_enabled : forall cfg c p f s sn,
+  let q := pst (step_enable cfg c p f s sn) in
   p_sm_id q = p_sm_id p \/ p_sm_id q = [] \/ exists r, In (SEnabled (p_sm_id q) r) s.
 Proof. exact enable_sm_id. Qed.
 
